@@ -271,7 +271,7 @@ func checkDeferStream(r *core.Run, prop string, x *fedExec, ctxMsg string, fault
 func runFED10(r *core.Run) {
 	const prop = "C10"
 	W := r.W
-	e := newFedEnv(r, true)
+	e := newFedEnvA(r, true, fedAbstractMode(r))
 	o := fedEngineOpts{multiFetch: W.Prob(0.2), scheduleFetches: W.Prob(0.3)}
 	faults := r.Flag("nofaults") == "" && W.Prob(0.25)
 	ctx, cancel := context.WithCancel(context.Background())
@@ -398,9 +398,9 @@ func runFED10(r *core.Run) {
 		} else if got != twin.data && altReconstruct(x.w.frames, twin.data, strings.Count(op.Query, "@defer") >= 2) {
 			r.Fail(prop, "reconstruction", "pending-path-includes-first-item-subpath", "the payloads reconstruct the non-deferred data only when items with a subPath are read relative to a prefix of the announced pending path\n%sframes:\n  %s\n%s", ctxMsg, strings.Join(x.w.frames, "\n  "), e.describe())
 		} else if got != twin.data {
-			r.Fail(prop, "reconstruction", "twin", "applying the incremental payloads to the initial data does not give the data of the same operation without @defer\n%sreconstructed: %s\nwithout defer: %s\nframes:\n  %s\n%s", ctxMsg, got, twin.data, strings.Join(x.w.frames, "\n  "), e.describe())
+			r.Fail(prop, "reconstruction", "twin"+e.deferShape(op.Query), "applying the incremental payloads to the initial data does not give the data of the same operation without @defer\n%sreconstructed: %s\nwithout defer: %s\nframes:\n  %s\n%s", ctxMsg, got, twin.data, strings.Join(x.w.frames, "\n  "), e.describe())
 		} else if got != want {
-			r.Fail(prop, "reconstruction", "reference", "reconstructed data differs from the reference monolith\n%sreconstructed: %s\nreference:     %s", ctxMsg, got, want)
+			r.Fail(prop, "reconstruction", "reference"+e.deferShape(op.Query), "reconstructed data differs from the reference monolith\n%sreconstructed: %s\nreference:     %s", ctxMsg, got, want)
 		}
 		if len(e.viol) > 0 {
 			r.Fail(prop, "invalid-subgraph-request", "", "%s\n%s%s", e.viol[0], ctxMsg, e.describe())
@@ -411,7 +411,7 @@ func runFED10(r *core.Run) {
 		var rc any
 		_ = json.Unmarshal([]byte(canonValue(recon)), &rc)
 		if !isNullingOrMissing(rc, f0) {
-			r.Fail(prop, "reconstruction", "faults-nulling", "under faults the delivered data is not a nulling of the fault-free data\n%sreconstructed: %s\nfault-free:    %s", ctxMsg, canonValue(recon), twin.data)
+			r.Fail(prop, "reconstruction", "faults-nulling"+e.deferShape(op.Query), "under faults the delivered data is not a nulling of the fault-free data\n%sreconstructed: %s\nfault-free:    %s", ctxMsg, canonValue(recon), twin.data)
 		}
 	}
 	cancel()
@@ -599,4 +599,65 @@ func deepCopyJSON(v any) any {
 		return l
 	}
 	return v
+}
+
+// deferShape classifies a deferred operation for two known findings: the planner defect around a
+// response key shared by fragments on different types (see sharedKeyShape) and @defer combined with a
+// list of lists (the fragment is below one or selects one): its incremental payloads never arrive.
+func (e *fedEnv) deferShape(query string) string {
+	if k := sharedKeyShape(query); k != "" {
+		return k
+	}
+	doc, err := parseGQL(query)
+	if err != nil {
+		return ""
+	}
+	found := false
+	// nested: below a field of list-of-lists type; inDefer: inside a deferred fragment
+	var walk func(typeName string, sel []*gSelection, nested, inDefer bool)
+	walk = func(typeName string, sel []*gSelection, nested, inDefer bool) {
+		for _, s := range sel {
+			deferred := false
+			for _, d := range s.Directives {
+				if d.Name == "defer" {
+					deferred = true
+				}
+			}
+			switch s.Kind {
+			case "field":
+				td := e.mono.Types[typeName]
+				if td == nil || td.Fields[s.Name] == nil {
+					continue
+				}
+				ft := td.Fields[s.Name].Type
+				if ft.Nested && inDefer {
+					found = true
+				}
+				walk(ft.Name, s.Sel, nested || ft.Nested, inDefer)
+			case "inline":
+				if deferred && nested {
+					found = true
+				}
+				tn := typeName
+				if s.TypeCond != "" {
+					tn = s.TypeCond
+				}
+				walk(tn, s.Sel, nested, inDefer || deferred)
+			case "spread":
+				if deferred && nested {
+					found = true
+				}
+				if f := doc.Frags[s.Name]; f != nil {
+					walk(f.TypeCond, f.Sel, nested, inDefer || deferred)
+				}
+			}
+		}
+	}
+	for _, op := range doc.Ops {
+		walk(e.mono.Query, op.Sel, false, false)
+	}
+	if found {
+		return "-with-defer-and-list-of-lists"
+	}
+	return ""
 }
